@@ -235,4 +235,15 @@ def selectGen (d : Select) (isWord : Char → Bool) (lower : List Char → List 
   | .error e => .error e
   | .ok a => .ok (some (selectIdx (fun t => (!d.guardNonEmpty || !expr.isEmpty) && eval (matcherOf d.matcher lower t) a) tasks))
 
+/-- One iteration of the string branch of `_modify_dag`'s loop, from `afterLoop`. The translator establishes
+`stateless` (nothing written by an earlier iteration is read, except the dag) — otherwise it fails; with it, the loop is
+the map of this step over the tasks. -/
+def afterStepGen (d : AfterLoop) (isWord : Char → Bool) (lower : List Char → List Char) (tasks : List TaskInfo) (i : Nat)
+    (expr : List Char) : Except CErr (List Nat) :=
+  if d.selectFn != "select_by_after_keyword" || !d.viaSuccessors || !d.stateless then .error .fuel else
+  match selectGen selAfter isWord lower expr tasks with
+  | .error e => .error e
+  | .ok none => .ok []
+  | .ok (some sel) => .ok (if d.discardsSelf then sel.filter (fun j => j != i) else sel)
+
 end Pytask.SelExpr.Gen
